@@ -42,6 +42,10 @@ type Session struct {
 	paused   bool
 	Received int64 // events received, sentinel included (atomic)
 
+	// OnEvent, when set before the first event, is called in the consumer goroutine for every
+	// received non-sentinel event (before it is recorded).
+	OnEvent func(Ev)
+
 	Want  []Ev
 	Log   []string
 	nsent int
@@ -122,6 +126,9 @@ func (s *Session) consume() {
 					s.sig <- e.Name
 				}
 				continue
+			}
+			if s.OnEvent != nil {
+				s.OnEvent(Ev{e.Name, e.Op, fsnotify.VerifRenamedFrom(e)})
 			}
 			s.mu.Lock()
 			s.got = append(s.got, Ev{e.Name, e.Op, fsnotify.VerifRenamedFrom(e)})
